@@ -367,6 +367,12 @@ class Evaluator:
         if isinstance(n, ast.IfExp) and isinstance(n.test, ast.Name) and isinstance(n.body, ast.Name) and n.test.id == n.body.id:
             # t if t else '0'
             return self.or_text(self.eval(n.body), self.eval(n.orelse))
+        if isinstance(n, ast.IfExp) and isinstance(n.test, ast.Name) and isinstance(self.env.get(n.test.id), (BytesV, StrV)):
+            # b.hex() if b else '0'   /   f(t) if t else '0': the tested bytes / text are empty exactly for the value 0, and so is
+            # the text made from them
+            body = self.eval(n.body)
+            if isinstance(body, StrV) and any(isinstance(x, ast.Name) and x.id == n.test.id for x in ast.walk(n.body)):
+                return self.or_text(body, self.eval(n.orelse))
         if isinstance(n, ast.IfExp):
             return Top("conditional expression")
         return Top(f"expression {type(n).__name__} not modelled")
@@ -497,6 +503,10 @@ class Evaluator:
 
     def call(self, n: ast.Call):
         f = n.func
+        if isinstance(f, ast.Attribute) and isinstance(f.value, ast.Name) and f.value.id == "operator" and f.attr == "index" \
+                and "operator" not in self.env and len(n.args) == 1 and not n.keywords:
+            v = self.eval(n.args[0])
+            return v if isinstance(v, IntV) else Top("operator.index of a non-integer")
         w = getattr(self, "walker", None)
         if w is not None and isinstance(f, ast.Name) and f.id in w.mod.funcs and f.id not in self.env:
             return w.eval(n, self.env)      # a helper of the module, wherever the call is nested
@@ -580,6 +590,9 @@ class Evaluator:
                 if isinstance(args[0], BitLenV) and args[0].bytes_needed and args[0].src == recv and recv.lo >= 0:
                     return BytesV(recv, None)
                 return Top("to_bytes with an unmodelled length")
+            if isinstance(recv, BytesV) and f.attr == "lstrip" and len(n.args) == 1 and isinstance(n.args[0], ast.Constant) \
+                    and n.args[0].value == b"\x00" and recv.order == "big" and recv.src.lo >= 0:
+                return BytesV(recv.src, None)          # leading zero BYTES removed: as many bytes as the value needs, none for 0
             if isinstance(recv, BytesV) and f.attr == "hex" and not args:
                 if recv.fixed is not None:
                     return StrV(16, "lower", "", "", 2 * recv.fixed, "0", True, False, 0, "", recv.src.lo, recv.src.hi, (f"to_bytes({recv.fixed}).hex(): {2 * recv.fixed} digits",))
